@@ -14,10 +14,12 @@ from vf.ref import logic
 from ahbicht.content_evaluation.fc_evaluators import text_to_be_evaluated_by_format_constraint
 from ahbicht.expressions.ahb_expression_evaluation import evaluate_ahb_expression_tree
 from ahbicht.expressions.ahb_expression_parser import parse_ahb_expression_to_single_requirement_indicator_expressions
-from ahbicht.expressions.condition_expression_parser import extract_categorized_keys, parse_condition_expression_to_tree
+from ahbicht.expressions.condition_expression_parser import extract_categorized_keys, extract_categorized_keys_from_tree, parse_condition_expression_to_tree
 from ahbicht.expressions.expression_resolver import parse_expression_including_unresolved_subexpressions
 from ahbicht.expressions.format_constraint_expression_evaluation import format_constraint_evaluation
 from ahbicht.expressions.requirement_constraint_expression_evaluation import requirement_constraint_evaluation
+from ahbicht.json_serialization.concise_condition_key_tree_schema import ConciseConditionKeyTreeSchema
+from ahbicht.json_serialization.concise_tree_schema import ConciseTreeSchema
 from ahbicht.json_serialization.tree_schema import TreeSchema
 from ahbicht.models.categorized_key_extract import CategorizedKeyExtract, CategorizedKeyExtractSchema
 from ahbicht.models.condition_nodes import EvaluatedFormatConstraint, EvaluatedFormatConstraintSchema
@@ -90,6 +92,12 @@ async def check_tree(ctx, case):
         return
     tree = out[1]
     ctx.count("trees")
+    if ctx.rng.random() < 0.5:
+        # the library's other (dump-only) tree schemas are used on equal trees beforehand: serialising through one schema must not
+        # influence what another one produces later
+        ctx.count("concise_dumps_before_round_trip")
+        for other in (ConciseConditionKeyTreeSchema(), ConciseTreeSchema()):
+            capture(other.dumps, tree)
     back = round_trip(ctx, "tree:" + kind, TreeSchema(), tree)
     if back is None:
         return
@@ -162,6 +170,13 @@ async def check_extract(ctx, s, resolve, replace):
         E.set_world(world)
         return await extract_categorized_keys(s, resolve_packages=resolve, replace_time_conditions=replace)
 
+    # the extract as extract_categorized_keys_from_tree hands it out by default (keys in order and multiplicity of occurrence)
+    parsed = capture(parse_condition_expression_to_tree, s)
+    if parsed[0] == "ok":
+        raw = capture(extract_categorized_keys_from_tree, parsed[1])
+        if raw[0] == "ok":
+            ctx.count("unsanitized_extracts")
+            round_trip(ctx, "categorized-key-extract-as-extracted", CategorizedKeyExtractSchema(), raw[1])
     out = await sched.run_under(None, go)
     if out[0] != "ok":
         return
